@@ -5,10 +5,23 @@ struct NoSend(*const u8);
 unsafe impl Sync for NoSend {}
 struct Wrapped<T, M> { items: std::vec::IntoIter<T>, _m: M }
 impl<T, M> Iterator for Wrapped<T, M> { type Item = T; fn next(&mut self) -> Option<T> { self.items.next() } }
+
+struct Mine<'a> { data: &'a [u64], counter: AtomicCounter, _m: std::rc::Rc<u64> }
+impl<'a> orx_concurrent_iter::iter::atomic_iter::AtomicIter<&'a u64> for Mine<'a> {
+    fn counter(&self) -> &AtomicCounter { &self.counter }
+    fn progress_and_get_begin_idx(&self, n: usize) -> Option<usize> {
+        let b = self.counter.fetch_and_add(n);
+        if b < self.data.len() { Some(b) } else { None }
+    }
+    fn get(&self, i: usize) -> Option<&'a u64> { self.data.get(i) }
+    fn fetch_n(&self, n: usize) -> Option<NextChunk<&'a u64, impl ExactSizeIterator<Item = &'a u64>>> {
+        self.progress_and_get_begin_idx(n).map(|b| NextChunk { begin_idx: b, values: self.data[b..(b + n).min(self.data.len())].iter() })
+    }
+    fn early_exit(&self) { self.counter.store(self.data.len()) }
+}
 fn main() {
-    let col: Vec<String> = vec![String::from("a"), String::from("b"), String::from("c")];
-    let it = col.into_iter().into_con_iter();
-    let mut b = it.buffered_iter(2);
-    let c = it.next_chunk(2);
-    if let Some(x) = c { let _n = x.values.count(); }
+    use orx_concurrent_iter::iter::atomic_iter::AtomicIter;
+    let data = vec![1u64, 2, 3];
+    let it = Mine { data: &data, counter: AtomicCounter::new(), _m: std::rc::Rc::new(7u64) }.copied();
+    std::thread::scope(|s| { s.spawn(move || { let _ = it.fetch_one(); }); });
 }
